@@ -3,6 +3,7 @@ import ast
 import importlib
 import os
 import subprocess
+import sys
 import tempfile
 import time
 import traceback
@@ -38,6 +39,8 @@ def load_sidecars(names):
         c.ensures = None
         c.exsures = {n[len("exsures_"):]: src.find(f"{scls}.{n}") for n in c.exs}
         c.assume_entry = src.find(f"{scls}.assume_entry")
+        c.cases = {qn.split(".case_", 1)[1]: node for qn, node in src.index.items()
+                   if qn.startswith(f"{scls}.case_") and qn.count(".") == 1}
         c.loop_invs = {}
         for qn, node in src.index.items():
             if qn.startswith(f"{scls}.loop_inv_") and qn.count(".") == 1:
@@ -54,7 +57,7 @@ def eval_ensures_all(ex, ctx, st, c, args, result, old_heap):
     conj = []
     for name, fdef in c.ensures_clauses:
         conj.append((name, calls.eval_spec_bool(ex, ctx, st, (c.source_scope, fdef), list(args) + [result], old_heap,
-                                                base_specs=calls.contract_base(c),
+                                                base_specs=calls.contract_base(c, post=True),
                                                 arg_types=calls.contract_types(ex, c, True), as_goal=True)))
     return conj
 
@@ -93,7 +96,7 @@ def make_params(ex, ctx, st, c):
             typ = ("any", None)
         if isinstance(typ, str):
             typ = (typ, None)
-        sv = ex.typed(ctx, st, raw, typ[0], typ[1], assume=True, why=f"param-type:{c.target}:{p}")
+        sv = ex.typed(ctx, st, raw, typ[0], typ[1], assume=True, why=f"param-type:{c.target}:{p}", glob=True)
         if typ[0] in ("ref",):
             ctx.assume(sv.t >= 0)  # pre-existing object
         args.append(sv)
@@ -103,9 +106,13 @@ def make_params(ex, ctx, st, c):
 def verify_function(reg, sources, key, canary=True):
     """Symbolically execute the real function `key` against its contract. Returns FunctionReport with
     undischarged obligations attached as z3 objects in `rep._obls` (discharged by discharge())."""
+    case = None
+    full_key = key
+    if "#" in key:
+        key, case = key.split("#", 1)
     c = reg.contracts[key]
     module, qual = key.split(":")
-    rep = FunctionReport(key)
+    rep = FunctionReport(full_key)
     t0 = time.time()
     src = sources.get(module)
     fdef = src.find(qual) if src else None
@@ -139,12 +146,19 @@ def verify_function(reg, sources, key, canary=True):
                 entry_memo["pre"] = calls.eval_spec_bool(ex, ctx, st, (c.source_scope, c.requires), args,
                                                          arg_types=calls.contract_types(ex, c))
             ctx.assume(entry_memo["pre"], f"requires:{key}")
+        if case is not None:
+            cs = calls.eval_spec_bool(ex, ctx, st, (c.source_scope, c.cases[case]), args,
+                                      arg_types=calls.contract_types(ex, c))
+            ctx.assume(cs, f"case:{case}", glob=True)
         if c.assume_entry is not None:
             if True:
+                bs = calls.contract_base(c)
+                if case is not None:
+                    bs = tuple(bs) + (((c.source_scope, c.cases[case]), len(c.params), "cur"),)
                 entry_memo["ent"] = calls.eval_spec_bool(ex, ctx, st, (c.source_scope, c.assume_entry), args,
-                                                         base_specs=calls.contract_base(c),
-                                                         arg_types=calls.contract_types(ex, c))
-            ctx.assume(entry_memo["ent"], f"definition:{key}")
+                                                         base_specs=bs,
+                                                         arg_types=calls.contract_types(ex, c), heavy=True)
+            ctx.assume(entry_memo["ent"], f"definition:{key}", heavy=True)
         if "feasible" not in entry_memo:
             entry_memo["feasible"] = ctx.feasible(z3.BoolVal(True))
             if not entry_memo["feasible"]:
@@ -174,7 +188,7 @@ def verify_function(reg, sources, key, canary=True):
                 xs = c.exsures.get(exc)
                 if xs is not None:
                     post = calls.eval_spec_bool(ex, ctx, st, (c.source_scope, xs), args, old_heap,
-                                                base_specs=calls.contract_base(c),
+                                                base_specs=calls.contract_base(c, post=True),
                                                 arg_types=calls.contract_types(ex, c))
                     ctx.oblige(f"{qual}#exsures_{exc}", post, {"kind": "exceptional-postcondition"})
             else:
@@ -187,6 +201,8 @@ def verify_function(reg, sources, key, canary=True):
     except Unsupported as u:
         rep.status = "out_of_reach"
         rep.reason = str(u)
+        if os.environ.get("PYVC_DEBUG"):
+            print(getattr(u, "tb", ""), file=sys.stderr)
         rep.time = time.time() - t0
         return rep
     except CheckerError as e:
